@@ -321,10 +321,9 @@ Record idtab := {
 }.
 
 Definition bt (s : str) : str := c_backtick :: s ++ [c_backtick].
-Definition is_star (s : str) : bool := match s with [c] => c =? 42 | _ => false end.
 
+(* since commit 328740d the regex has no wildcard alternative: a name spelled `*` keeps its backticks *)
 Definition valid_prql_ident (T : idtab) (s : str) : bool :=
-  is_star s ||
   match s with
   | c :: t => in_ranges (it_fmt_start T) c && forallb (in_ranges (it_fmt_rest T)) t
   | [] => false
